@@ -287,6 +287,8 @@ def handover_weight(eng, res, rule="R-HANDOVER-WEIGHT"):
         ok = re.fullmatch(r"\|0(\.0*)?\|\]", lit) is not None and src(left).endswith("[:-1]") and "_create_compatible_bond_text(" in src(left) and "left_terminal" in src(left)
         why = f"appends {src(left)[:80]} + {lit!r}"
         g = [src(t) for t, pol in cfg.guard_exprs(cfg.node_of(n)) if pol]
+        # `if len(…) >= k: <leave>` in front of the site is the same guard, written as an early exit
+        g += [src(t).replace(">=", "<") for t, pol in cfg.guard_exprs(cfg.node_of(n)) if not pol and isinstance(t, ast.Compare) and len(t.ops) == 1 and isinstance(t.ops[0], ast.GtE)]
         ok = ok and any("len(" in x and "bond_descriptors" in x and "<" in x for x in g)
     res.ob(rule, f, "outgoing-descriptor-weight-zero", "the automatically appended outgoing descriptor repeats the next object's left terminal and has weight 0", sites[0] if sites else f.node, ok, why)
     # the two other insertions (front of a connector, front of a suffix) carry no weight: default 1
